@@ -398,6 +398,62 @@ def spec_post_msg():
                 globals={"event_bus": Obj("event_bus", {"send": Fn("send", lambda it, st, a, k: NONE)})})
 
 
+# ------------------------------------------------------------------ algorithms.check_param_value (loop free)
+
+def spec_check_param_value(ptype, with_values):
+    """value: an opaque python object with a type name; int()/float() are trusted partial functions: either raise
+    (ValueError / TypeError) or return an object of that type.  Result: of the declared type, equal to the value when it
+    already has the type and to its conversion otherwise, member of ``values`` when given; anything else raises ValueError."""
+    from pvc.vcgen import ForkOn
+    v = z3.Const("param_val", ValSort)
+    StrS = z3.StringSort()
+    tname = z3.Function("type_name", ValSort, StrS)
+    conv = {"int": z3.Function("int_of", ValSort, ValSort), "float": z3.Function("float_of", ValSort, ValSort)}
+    convertible = {"int": z3.Function("int_ok", ValSort, z3.BoolSort()), "float": z3.Function("float_ok", ValSort, z3.BoolSort())}
+    allowed = z3.Function("in_values", ValSort, z3.BoolSort())
+    axioms = [z3.ForAll([X], z3.Implies(convertible[k](X), tname(conv[k](X)) == z3.StringVal(k))) for k in conv]
+
+    def is_of_type(it, st, a, k):
+        return tname(a[0]) == z3.StringVal(a[1])
+
+    def convert(it, st, f, arg):
+        tag = "%s(%s)" % (f, arg)
+        known = st.ghosts.get("known", set())
+        if (tag, True) in known:
+            return conv[f](arg)
+        raise ForkOn(convertible[f](arg), "ValueError", tag)
+
+    def contains(it, st, a, b):
+        return allowed(a)
+
+    def env(it):
+        pd = Obj("param_def", {"type": ptype, "name": "p", "values": (Obj("values", {}) if with_values else NONE)})
+        return {"param_val": v, "param_def": pd}
+
+    def expected(r):
+        same = tname(v) == z3.StringVal(ptype)
+        parts = [tname(r) == z3.StringVal(ptype), z3.Implies(same, r == v)]
+        if ptype in conv:
+            parts.append(z3.Implies(z3.Not(same), z3.And(convertible[ptype](v), r == conv[ptype](v))))
+        else:
+            parts.append(same)
+        if with_values:
+            parts.append(allowed(r))
+        return z3.And(*parts)
+
+    def raises_ok(it, st):
+        same = tname(v) == z3.StringVal(ptype)
+        bad_type = z3.And(z3.Not(same), z3.BoolVal(ptype not in conv))
+        bad_conv = z3.And(z3.Not(same), convertible[ptype](v) == z3.BoolVal(False)) if ptype in conv else z3.BoolVal(False)
+        r = conv[ptype](v) if ptype in conv else v
+        res = z3.If(same, v, r)
+        bad_val = z3.And(z3.BoolVal(with_values), z3.Not(allowed(res)))
+        return z3.Or(bad_type, bad_conv, bad_val)
+    return dict(env=env, requires=lambda it, st: axioms, ensures=lambda it, st, val: expected(val), loops={},
+                raises={"ValueError": raises_ok}, convert=convert, contains=contains,
+                globals={"is_of_type_by_str": Fn("is_of_type_by_str", is_of_type)})
+
+
 def _is_false(v):
     return z3.BoolVal(v is False) if isinstance(v, bool) else z3.Not(v)
 
@@ -479,6 +535,10 @@ U_TARGETS = {
     "get_value_candidates[None]": ("pydcop.algorithms.syncbb:get_value_candidates", lambda: spec_value_candidates(True), ["C02"]),
     "get_value_candidates[value]": ("pydcop.algorithms.syncbb:get_value_candidates", lambda: spec_value_candidates(False), ["C02"]),
     "solution_cost[complete]": ("pydcop.dcop.dcop:solution_cost", lambda: spec_solution_cost(True), ["C13"]),
+    "check_param_value[int]": ("pydcop.algorithms:check_param_value", lambda: spec_check_param_value("int", False), ["C28"]),
+    "check_param_value[float,values]": ("pydcop.algorithms:check_param_value", lambda: spec_check_param_value("float", True), ["C28"]),
+    "check_param_value[str,values]": ("pydcop.algorithms:check_param_value", lambda: spec_check_param_value("str", True), ["C28"]),
+    "check_param_value[str]": ("pydcop.algorithms:check_param_value", lambda: spec_check_param_value("str", False), ["C28"]),
     "AgentDef.route": ("pydcop.dcop.objects:AgentDef.route", spec_route, ["C31"]),
     "AgentDef.hosting_cost": ("pydcop.dcop.objects:AgentDef.hosting_cost", spec_hosting_cost, ["C31"]),
     "MessagePassingComputation.on_message": ("pydcop.infrastructure.computations:MessagePassingComputation.on_message", spec_on_message, ["C19"]),
@@ -537,5 +597,5 @@ def _u_contract(prop):
     )
 
 
-for _p in ("C06", "C01", "C02", "C19", "C13", "C31"):
+for _p in ("C06", "C01", "C02", "C19", "C13", "C31", "C28"):
     _u_contract(_p)
